@@ -10,7 +10,7 @@ exec 9> "$ROOT/.buildlock"; flock 9
 if grep -rnE 'Admitted|admit\.|^\s*Axiom |^\s*Parameter |^\s*Conjecture |Unset Guard|bypass_check|type-in-type|impredicative-set|Admit Obligations' coq --include='*.v'; then
   echo "setup: forbidden construct in coq/" >&2; exit 2
 fi
-if [ $# -gt 0 ]; then PROPS="$*"; else PROPS=$(ls harness/manifest 2>/dev/null | sed 's/\.json$//' | tr '\n' ' '); fi
+if [ $# -gt 0 ]; then PROPS="$*"; else PROPS=$(cat harness/released.txt); fi
 cd "$ROOT/coq"
 find . -name '*.v' | sed 's|^\./||' | sort > .files.new
 if ! cmp -s .files.new .files || [ ! -f Makefile.coq ]; then
